@@ -56,6 +56,10 @@ type batchCase struct {
 	// RegionNSRE: these regions answer the next multi-request addressing them with a region-level
 	// NotServingRegionException (the region is fine again afterwards)
 	RegionNSRE []int `json:"region_nsre,omitempty"`
+	// RegionFatal: these regions answer the next multi-request addressing them with a region-level exception
+	// of a class that is NOT retryable (FatalClass): the calls of that request fail for good, nothing is sent again
+	RegionFatal []int  `json:"region_fatal,omitempty"`
+	FatalClass  string `json:"fatal_class,omitempty"`
 	// Sched: call SchedCall gets two owned scheduling points: the batch is held up CollectMS before it first
 	// looks at that call's result, the region client's reader DeliverMS before it delivers to it
 	Sched          bool `json:"sched,omitempty"`
@@ -107,6 +111,10 @@ func batchExec(c batchCase) batchObs {
 			for _, ri := range c.RegionNSRE {
 				r := regs[((ri%len(regs))+len(regs))%len(regs)]
 				r.MultiExc = append(r.MultiExc, sim.Exc{Class: sim.NSRE, Stack: sim.NSRE + ": region is not online"})
+			}
+			for _, ri := range c.RegionFatal {
+				r := regs[((ri%len(regs))+len(regs))%len(regs)]
+				r.MultiExc = append(r.MultiExc, sim.Exc{Class: c.FatalClass, Stack: c.FatalClass + ": refused for the whole region action"})
 			}
 			for _, ri := range c.ProbeStop {
 				r := regs[((ri%len(regs))+len(regs))%len(regs)]
@@ -544,6 +552,7 @@ func c12Run(c batchCase) (out Outcome) {
 	lastIdx := map[key]int{}
 	executions := map[string]int{}
 	sends := map[string]int{}
+	refused := map[string]bool{}
 	executedAt := map[string]int{}
 	perRegion := map[string][]int{}
 	sameRegion := false
@@ -553,6 +562,9 @@ func c12Run(c batchCase) (out Outcome) {
 			continue
 		}
 		sends[e.Marker]++
+		if c.FatalClass != "" && e.Result == c.FatalClass {
+			refused[e.Marker] = true
+		}
 		if e.InMulti {
 			k := key{e.Conn, e.CallID, e.Region}
 			if prev, seen := lastIdx[k]; seen {
@@ -579,6 +591,10 @@ func c12Run(c batchCase) (out Outcome) {
 		}
 		if len(c.ProbeStop) > 0 {
 			continue
+		}
+		if refused[op.Marker] && (r.Error == nil || !strings.Contains(r.Error.Error(), c.FatalClass)) {
+			return viol("region-refusal-lost", "call %s (index %d) travelled in a multi-request whose region action was refused with %s (not retryable); its result is (%v, %v); server log: %q",
+				op.Marker, i, c.FatalClass, r.Msg != nil, r.Error, execHistory(obs.execs))
 		}
 		if executions[op.Marker] > 1 {
 			return viol("executed-twice", "call %s (index %d) was executed %d times; server log: %q", op.Marker, i, executions[op.Marker], execHistory(obs.execs))
@@ -723,8 +739,21 @@ func c12Gen(t *rapid.T) batchCase {
 				c.Invalid = "table"
 			}
 		}
-	case 1, 2:
+	case 1:
 		c.Scripts = genScripts(t, c.Batch, false)
+	case 2:
+		if rapid.Bool().Draw(t, "regionfatal") {
+			// a whole region action is refused with a class that is not retryable, the other regions of the
+			// same multi-request succeed: the refused calls fail for good and nothing is sent twice
+			c.FatalClass = rapid.SampledFrom([]string{sim.DoNotRetry, "org.apache.hadoop.hbase.security.AccessDeniedException",
+				"java.io.IOException", "org.apache.hadoop.hbase.regionserver.NoSuchColumnFamilyException"}).Draw(t, "fatalclass")
+			nr := rapid.IntRange(1, 2).Draw(t, "nfatal")
+			for k := 0; k < nr; k++ {
+				c.RegionFatal = append(c.RegionFatal, rapid.IntRange(0, 4).Draw(t, "fatalregion"))
+			}
+		} else {
+			c.Scripts = genScripts(t, c.Batch, false)
+		}
 	case 3:
 		c.Scripts = genScripts(t, c.Batch, true)
 	case 4:
